@@ -98,6 +98,12 @@ def client_framing(ctx, rng):
                         ctx.violate("proxy-construction-raised-%s" % type(ex).__name__, {"part": "client", "url": url},
                                     {"raised": ex})
                         continue
+                    if ui % 2 == 0:
+                        # other clients of the same process, configured differently, are built in the meantime
+                        decoys = [jsonrpclib.ServerProxy(url, config=jsonrpclib.config.Config(
+                            content_type="application/x-other-client", user_agent="other")),
+                            jsonrpclib.ServerProxy(url)]
+                        ctx.count("client-proxies-used-after-other-clients-were-built")
                     vals = text_values(rng)
                     rng.shuffle(vals)
                     for v in vals[:ctx.pick(4, 12)]:
